@@ -224,7 +224,7 @@ func runC10(c *Ctx) *Replay {
 	origin := ""
 	vocabRuns := len(tokenVocab) + len(tokenVocab)*len(tokenVocab)
 	lexRuns := 0
-	if c.N.Batch.Runs >= vocabRuns+3*lexCount {
+	if c.N.Batch.Runs >= vocabRuns+2*lexCount+1000 {
 		lexRuns = 2 * lexCount
 	}
 	fewFaults := false
